@@ -1528,13 +1528,14 @@ fn strvec_history(cx: &mut Ctx, ops: &[Value], coq: Coq) {
             let i = o[1].as_u64().unwrap_or(0) as usize;
             let mut e: Vec<i128> = vec![];
             let mut cop: Option<String> = None;
+            let mut refused = false;
             match code {
                 0 | 13 => { let st = sop_str(o);
                     let r = if code == 0 { v.push_str(&st) } else { v.push(st.clone()) };
                     cop = Some(format!("TS (SPush {})", sop_coq_str(o)));
                     match r { Ok(id) => { if id != want.len() { return Err(format!("push returned id {} for element {}", id, want.len())); }
                                           e = vec![5, id as i128]; want.push(st); mode = Mode::Unsorted; }
-                              Err(_) => { if st.len() < (1 << 20) { return Err(format!("push of a {}-byte string refused", st.len())); } e = vec![-1]; } } }
+                              Err(_) => { if st.len() < (1 << 20) { return Err(format!("push of a {}-byte string refused", st.len())); } e = vec![-1]; refused = true; } } }
                 1 => { let g = v.get(i).map(|x| x.to_string()); if g != want.get(i).cloned() { return Err(format!("get({}) = {:?}, a Vec<String> holds {:?}", i, g.as_deref().map(trunc), want.get(i).map(|x| trunc(x)))); }
                        if v.get_by_id(i).map(|x| x.to_string()) != g { return Err(format!("get_by_id({}) differs from get", i)); }
                        match &g { None => e = vec![1], Some(x) => { e = vec![2]; enc_str(&mut e, x.as_bytes()); } }
@@ -1582,6 +1583,8 @@ fn strvec_history(cx: &mut Ctx, ops: &[Value], coq: Coq) {
             for j in [0usize, n / 2, n.wrapping_sub(1)] { if j < n && v.get(j) != Some(want[j].as_str()) { return Err(format!("after op {:?}: get({}) = {:?}, pushed {:?}", o[0], j, v.get(j).map(trunc), trunc(&want[j]))); } }
             if v.get(n).is_some() || v.get(n + 7).is_some() { return Err("get past the end was not refused".into()); }
             if mode != Mode::Unsorted && v.get_sorted(n).is_some() { return Err("get_sorted past the end was not refused".into()); }
+            if refused { for j in 0..n { if v.get(j) != Some(want[j].as_str()) { return Err(format!("after the refused op {:?}: get({}) = {:?}, pushed {:?}", o[0], j, v.get(j).map(trunc), trunc(&want[j]))); } }
+                         if mode == Mode::Exact { let g: Vec<String> = v.iter_sorted().map(|x| x.to_string()).collect(); if g != view { return Err(format!("after the refused op {:?}: the sorted view changed", o[0])); } } }
             if let (Some(t), false) = (cop, e.is_empty()) { coq_ops.push(t); expect.push(zlist(&e)); }
         }
         Ok((coq_ops, expect, coq_ok))
@@ -1610,10 +1613,11 @@ fn fixedlen_history_n<const N: usize>(cx: &mut Ctx, ops: &[Value], coq: Coq) {
             let code = o[0].as_u64().unwrap_or(0);
             let i = o[1].as_u64().unwrap_or(0) as usize;
             let mut e: Vec<i128> = vec![];
+            let mut refused = false;   // the operation was refused: the whole content is read back, not a sample
             match code {
                 0 => { let st = sop_str(o);
                        match v.push(&st) { Ok(()) => { if st.len() > N { return Err(format!("a {}-byte string was accepted by FixedLenStrVec<{}>", st.len(), N)); } want.push(st); e = vec![0]; }
-                                           Err(_) => { if st.len() <= N && st.len() <= 255 { return Err(format!("push of a {}-byte string refused by FixedLenStrVec<{}>", st.len(), N)); } e = vec![-1]; } }
+                                           Err(_) => { if st.len() <= N && st.len() <= 255 { return Err(format!("push of a {}-byte string refused by FixedLenStrVec<{}>", st.len(), N)); } e = vec![-1]; refused = true; } }
                        coq_ops.push(format!("FPush {}", sop_coq_str(o))); }
                 1 => { let g = v.get(i).map(|x| x.to_string()); if g != want.get(i).cloned() { return Err(format!("get({}) = {:?}, a Vec<String> holds {:?}", i, g, want.get(i))); }
                        match &g { None => e = vec![1], Some(x) => { e = vec![2]; enc_str(&mut e, x.as_bytes()); } } coq_ops.push(format!("FGet {}", i)); }
@@ -1631,6 +1635,7 @@ fn fixedlen_history_n<const N: usize>(cx: &mut Ctx, ops: &[Value], coq: Coq) {
             if v.len() != n { return Err(format!("after op {:?}: len() = {}, a Vec<String> holds {}", o[0], v.len(), n)); }
             for j in [0usize, n / 2, n.wrapping_sub(1)] { if j < n && v.get(j) != Some(want[j].as_str()) { return Err(format!("after op {:?}: get({}) = {:?}, pushed {:?}", o[0], j, v.get(j), want[j])); } }
             if v.get(n).is_some() || v.get_bytes(n + 1).is_some() { return Err("get past the end was not refused".into()); }
+            if refused { for j in 0..n { if v.get(j) != Some(want[j].as_str()) || v.get_bytes(j) != Some(want[j].as_bytes()) { return Err(format!("after the refused op {:?}: get({}) = {:?}, pushed {:?}", o[0], j, v.get(j), want[j])); } } }
             expect.push(zlist(&e));
         }
         Ok((coq_ops, expect))
@@ -1664,10 +1669,11 @@ fn bitpacked_history(cx: &mut Ctx, w64: bool, ops: &[Value], coq: Coq) {
                 let code = o[0].as_u64().unwrap_or(0);
                 let i = o[1].as_u64().unwrap_or(0) as usize;
                 let mut e: Vec<i128> = vec![];
+                let mut refused = false;
                 match code {
                     0 => { let st = sop_str(o);
                            match v.push(&st) { Ok(k) => { if k != want.len() { return Err(format!("push returned index {}, a Vec<String> holds {} strings", k, want.len())); } want.push(st); e = vec![7, k as i128]; }
-                                               Err(_) => { if st.len() < (1 << 24) { return Err(format!("push of a {}-byte string refused", st.len())); } e = vec![-1]; } }
+                                               Err(_) => { if st.len() < (1 << 24) { return Err(format!("push of a {}-byte string refused", st.len())); } e = vec![-1]; refused = true; } }
                            coq_ops.push(format!("PPush {}", sop_coq_str(o))); }
                     1 => { let g = v.get(i).map(|x| x.to_string()); if g != want.get(i).cloned() { return Err(format!("get({}) = {:?}, a Vec<String> holds {:?}", i, g, want.get(i))); }
                            match &g { None => e = vec![1], Some(x) => { e = vec![2]; enc_str(&mut e, x.as_bytes()); } } coq_ops.push(format!("PGet {}", i)); }
@@ -1682,6 +1688,7 @@ fn bitpacked_history(cx: &mut Ctx, w64: bool, ops: &[Value], coq: Coq) {
                 if v.len() != n { return Err(format!("after op {:?}: len() = {}, a Vec<String> holds {}", o[0], v.len(), n)); }
                 for j in [0usize, n / 2, n.wrapping_sub(1)] { if j < n && v.get(j) != Some(want[j].as_str()) { return Err(format!("after op {:?}: get({}) = {:?}, pushed {:?}", o[0], j, v.get(j), want[j])); } }
                 if v.get(n).is_some() || v.get_bytes(n + 1).is_some() { return Err("get past the end was not refused".into()); }
+                if refused { for j in 0..n { if v.get(j) != Some(want[j].as_str()) { return Err(format!("after the refused op {:?}: get({}) differs from the string pushed", o[0], j)); } } }
                 if !e.is_empty() { expect.push(zlist(&e)); }
             }
             Ok((coq_ops, expect))
@@ -1793,6 +1800,82 @@ fn gen_fixed_ops(r: &mut Rng, n: u64) -> Vec<Vec<u64>> {
         ops.push(if c < push_bias { vec![if c % 7 == 3 { 9 } else { 0 }] } else if c < 88 { vec![if c % 7 == 3 { 10 } else { 1 }] } else if c < 91 { vec![5] } else if c < 95 { vec![6] } else if c < 98 { vec![7] } else { vec![12] });
     }
     ops
+}
+
+/// Refused operations inside a history (deterministic family): every operation of the cell's vocabulary `allowed` that can be
+/// refused - pop / remove / set / pop_bulk / write on the empty vector, insert past len, remove / set / write at len and beyond,
+/// fill_range and pop_bulk reaching past len, push beyond a fixed capacity (`fixed` = Some(capacity)) - each in the middle of
+/// accepted operations; generic_history reads the whole content back after every step and carries on after a refusal.
+fn refusal_script(n: u64, allowed: &[u64], fixed: Option<u64>) -> Vec<Vec<u64>> {
+    let mut ops: Vec<Vec<u64>> = vec![];
+    let mut add = |o: Vec<u64>| { if allowed.contains(&o[0]) { ops.push(o); } };
+    let refusals = |add: &mut dyn FnMut(Vec<u64>), len: u64, w: u64| {
+        add(vec![2, len + 1]); add(vec![9, 0]); add(vec![3, len]); add(vec![11, len]); add(vec![21, len, w]); add(vec![13, 0, len + 1]); add(vec![14, len + 1]);
+        add(vec![20, len, w]); add(vec![2, len + 5]); add(vec![3, len + 4]); add(vec![11, len + 7]); add(vec![21, len + 1, w + 1]); add(vec![13, len, len + 2]); add(vec![12, len + 3]);
+        add(vec![9, len]); add(vec![23]);
+    };
+    add(vec![1]); refusals(&mut add, 0, 0);
+    for _ in 0..n { add(vec![0]); }
+    let mut len = n;
+    refusals(&mut add, len, 1);
+    if fixed.map(|c| len < c).unwrap_or(true) { add(vec![0]); len += 1; }
+    refusals(&mut add, len, 2);
+    if let Some(c) = fixed { while len < c { add(vec![0]); len += 1; } add(vec![0]); add(vec![9, len - 1]); add(vec![0]); add(vec![25]); }
+    if len > 0 { add(vec![1]); len -= 1; }
+    add(vec![0]); len += 1;
+    if fixed.is_some() { add(vec![0]); }
+    refusals(&mut add, len, 3);
+    add(vec![5]); len = 0; add(vec![1]); refusals(&mut add, len, 4);
+    add(vec![0]); add(vec![0]); add(vec![24, 0]); add(vec![22, 3]); add(vec![10]); add(vec![9, 0]); add(vec![9, 2]);
+    ops
+}
+/// the refusal scripts on every vector cell (vocabularies as in the breadth families), and over-long strings in the middle of
+/// FixedLenStrVec histories
+fn refused_families(cx: &mut Ctx) {
+    let fv_copy: &[u64] = &[0, 1, 2, 3, 4, 5, 6, 7, 8, 9, 10, 13, 15, 17, 18, 19, 20, 21, 22, 23, 24];
+    let fv_el: &[u64] = &[0, 1, 2, 3, 4, 5, 6, 7, 8, 9, 10, 18, 19, 20, 21, 22, 23, 24];
+    let vv_copy: &[u64] = &[0, 1, 5, 7, 8, 9, 10, 11, 16, 20, 21, 22, 23, 24, 25];
+    let vv_clone: &[u64] = &[0, 1, 5, 7, 8, 9, 10, 11, 20, 21, 22, 23, 24, 25];
+    let cache: &[u64] = &[0, 1, 5, 8, 9, 12, 20, 21];
+    let mm: &[u64] = &[0, 1, 4, 5, 6, 7, 8, 9, 12, 13, 14, 15, 20, 21, 22, 24, 27];
+    let bump: &[u64] = &[0, 1, 9, 20, 21]; let layout: &[u64] = &[0, 9, 20];
+    let cells: [(&str, &[u64]); 21] = [
+        ("fastvec_u64", fv_copy), ("fastvec_u8", fv_copy), ("fastvec_i16", fv_copy), ("fastvec_u128", fv_copy), ("fastvec_w3", fv_copy), ("fastvec_el", fv_el),
+        ("valvec32_el", vv_clone), ("valvec32_i16", vv_clone), ("valvec32_u64", vv_copy), ("valvec32_u8", vv_copy), ("valvec32_w3", vv_copy),
+        ("cachevec_el", cache), ("cachevec_u8", cache), ("cachevec_u64", cache), ("cachevec_w3", cache), ("bumpvec_el", bump), ("layoutvec_u64", layout),
+        ("mmapvec_u64", mm), ("mmapvec_u8", mm), ("mmapvec_i16", mm), ("mmapvec_w3", mm),
+    ];
+    for (tag, allowed) in cells.iter() {
+        for n in [0u64, 1, 4, 9] {
+            if *tag == "bumpvec_el" { vec_cell(cx, tag, n + 2, (0, false), &refusal_script(n, allowed, Some(n + 2)), Coq::Budget); }
+            else { for cap0 in [0u64, 3] { vec_cell(cx, tag, cap0, (0, false), &refusal_script(n, allowed, None), Coq::Budget); } }
+            cx.sum.dist("refusal_script_histories");
+        }
+    }
+    // the M+S FastVec<El> cell (insert / remove past the end) and the fixed queue (push on the full queue), through their own runners
+    for n in [0u64, 1, 4, 9] { for cap0 in [0u64, 3] {
+        fastvec_history(cx, cap0, &refusal_script(n, &[0, 1, 2, 3, 5, 9, 10], None), Coq::Budget);
+    } }
+    for n in [1u64, 2, 3, 4, 7, 8] {
+        let mut ops: Vec<Vec<u64>> = vec![vec![1], vec![10]];
+        for _ in 0..n { ops.push(vec![0]); }
+        ops.extend([vec![0], vec![6], vec![7], vec![9], vec![12], vec![1], vec![0], vec![9], vec![0], vec![12]]);
+        for _ in 0..n { ops.push(vec![1]); }
+        ops.extend([vec![1], vec![10], vec![0], vec![7], vec![5], vec![1], vec![9], vec![12]]);
+        fixed_history(cx, n, &ops, Coq::Budget);
+    }
+    // FixedLenStrVec<N>: over-long strings (N + 1, N + 40 bytes, N bytes + 1) between accepted pushes and lookups; the three constructors
+    for n in [4usize, 8, 16, 32, 64, 300] {
+        for extra in 0..3 {
+            let z = "z".repeat(n);
+            let mut ops: Vec<Value> = vec![json!([0, "x".repeat(n + 1)]), json!([3]), json!([0, "ab"]), json!([0, "x".repeat(n + 1)]), json!([1, 0]), json!([1, 1]), json!([3]), json!([0, "cd"]),
+                json!([0, "y".repeat(n + 40)]), json!([4, "cd"]), json!([5, "c"]), json!([2, 1]), json!([0, z.clone()]), json!([0, format!("{}!", z)]), json!([3]), json!([1, 2]), json!([1, 3]), json!([2, 2]),
+                json!([4, z.clone()]), json!([5, "z"]), json!([4, format!("{}!", z)]), json!([0, "e"]), json!([0, "w".repeat(n + 2)]), json!([1, 3]), json!([1, 4]), json!([4, "e"]), json!([5, ""])];
+            for _ in 0..extra { ops.push(json!([3])); }
+            fixedlen_history(cx, n as u64, &ops, Coq::Budget);
+            cx.sum.dist("refusal_script_histories");
+        }
+    }
 }
 
 fn gen_vec_ops(r: &mut Rng, allowed: &[u64], big: bool) -> Vec<Vec<u64>> {
@@ -2006,6 +2089,7 @@ fn run_inner(args: &Args) {
     }
     valvec32_limits(&mut cx);
     fixedlen_limit(&mut cx);
+    refused_families(&mut cx);
     breadth::run_all(&mut cx, args, &mut rng);
     // SortableStrVec at the 20-bit length limit, also replayed in Coq (the long strings are `repeat` terms there)
     strvec_history(&mut cx, &[json!([0, "head"]), json!([0, [120, (1u64 << 20) - 1]]), json!([0, [121, 1u64 << 20]]), json!([13, [122, (1u64 << 20) + 5]]), json!([0, "tail"]),
